@@ -179,6 +179,9 @@ func genCase(tp *simrt.Tape, name string, thorough bool) *conformancev1.TestCase
 			r := &conformancev1.ClientStreamRequest{RequestData: genBytes(tp, false)}
 			if i == 0 {
 				r.ResponseDefinition = unaryDef()
+			} else if tp.Bool(1, 4, "laterdef") {
+				// only the first message's definition counts; later ones must be ignored
+				r.ResponseDefinition = unaryDef()
 			}
 			add(r)
 		}
@@ -189,6 +192,8 @@ func genCase(tp *simrt.Tape, name string, thorough bool) *conformancev1.TestCase
 		for i := 0; i < n; i++ {
 			r := &conformancev1.BidiStreamRequest{RequestData: genBytes(tp, false), FullDuplex: st == conformancev1.StreamType_STREAM_TYPE_FULL_DUPLEX_BIDI_STREAM}
 			if i == 0 {
+				r.ResponseDefinition = streamDef()
+			} else if tp.Bool(1, 4, "laterdef") {
 				r.ResponseDefinition = streamDef()
 			}
 			add(r)
